@@ -25,7 +25,7 @@ def e2e_stream(tier, seed):
         return _cache[key]
     tools = C.ensure_tools()
     prepare(repo_dir)
-    n = 160 if tier == "quick" else 640
+    n = 160 if tier == "quick" else 400
     rng = G.SplitMix64(seed * 104729 + 11)
     lines = []
     corpus = os.path.join(C.ROOT, "corpus", "e2e.txt")
